@@ -94,6 +94,23 @@ def prove(c, goal, timeout_ms=10000, use_cvc5=True):
             if r2 == z3.sat:
                 r = r2
                 break
+        if r == z3.unknown:
+            # last resort for a machine whose cores are all busy (wall-clock budgets shrink under load): both solvers once
+            # more with a budget an order of magnitude above what the obligation needs on an idle machine
+            a = cvc5_check(fs, max(60, 6 * timeout_ms // 1000))
+            if a == "unsat":
+                return "PROVED", "cvc5(retry)", dt
+            s3 = z3.Solver()
+            s3.set("timeout", timeout_ms * 12)
+            s3.set("random_seed", 101)
+            s3.add(*fs)
+            t0 = time.time()
+            r3 = s3.check()
+            dt += time.time() - t0
+            if r3 == z3.unsat:
+                return "PROVED", "z3(retry)", dt
+            if r3 == z3.sat:
+                r = r3
     return "NOTPROVED", ("z3:" + str(r)), dt
 
 
